@@ -173,11 +173,15 @@ def _load_and_resave(ckpt, medium, loader, how='unbundle'):
     data = media.encode(ckpt['bundle'], medium)
     with Exec({'program': {'steps': []}}, attach_listener=False) as ex:
         try:
+            decoded = media.decode(data, medium)
+            pristine = copy.deepcopy(decoded)
             with ex.loop.as_running():
-                proc = media.load(data, medium, ex.loop, loader=loader, how=how)
+                proc = media.load_bundle(decoded, ex.loop, loader=loader, how=how)
         except Exception as exc:  # noqa: BLE001
             out['load_error'] = exc
             return out
+        # loading reads the saved state, it does not use it up: the same bundle can be loaded again
+        out['bundle_changed_by_load'] = same(pristine, decoded)
         ex.proc = proc
         out['observed'] = observe(proc)
         try:
@@ -246,6 +250,9 @@ def execute(case):
                 continue
             if 'load_error' in res:
                 v('load-failed', f"{where} via {medium} ({how}): {res['load_error']!r}")
+                continue
+            if res.get('bundle_changed_by_load'):
+                v('load-changed-the-bundle', f"{where} via {medium} ({how}): loading changed the saved state it was given: {res['bundle_changed_by_load']}")
                 continue
             if 'save_error' in res:
                 v('resave-failed', f"{where} via {medium}: {res['save_error']!r}")
